@@ -1,9 +1,10 @@
 """C18 — GraphBuilder / nn.Module naming."""
-MODULES = ["contracts.c18_builder", "contracts.c12_autocast"]
+# BuilderBase.call_op partitions its arguments with param_manipulation.separate_input_attributes_from_arguments (contract shared with C01)
+MODULES = ["contracts.c18_builder", "contracts.c12_autocast", "contracts.c01_calling:separate"]
 
 
 def INCLUDE(name):
-    return name.startswith("C18.") or name.startswith("C12.builder")
+    return name.startswith("C18.") or name.startswith("C12.builder") or name.startswith("C01.calling.separate")
 
 SUB = '''
 import sys
@@ -257,6 +258,9 @@ INLINE_REPLAY = "import runpy, sys\nsys.argv = ['c18_inline']\nrunpy.run_path('/
 
 
 def replay(ob):
+    if ob["name"].startswith("C01.calling."):
+        from props import C01
+        return C01.KEYWORD_INPUT
     if "inliner.instantiate" in ob["name"]:
         return INLINE_REPLAY
     n = ob["name"]
